@@ -14,7 +14,7 @@ class C13(core.Prop):
     lean_modules = ['TddaVerif.Props.C13']
     theorems = ['TddaVerif.Props.C13.' + t for t in [
         'each_pattern_has_witness', 'count_le_distinct', 'none_for_empty', 'pruning_subset', 'sampled_pattern_has_witness',
-        'anchored']]
+        'anchored', 'each_pattern_has_witness_every_size', 'sampled_pattern_has_witness_every_size']]
     quick_n = 1500
     thorough_n = 40000
     rule = ('cases: as C03 (example multisets over the exotic alphabet x option subsets x dialects x Size x seeds) plus '
@@ -74,7 +74,7 @@ class C13(core.Prop):
         if not rx.modelled(case['examples'], case['opts']):
             return []
         if rx.nosampling(case['examples'], case['opts'], case['size']):
-            return [rx.model_extract_op(case['examples'], o, case['form']) for o in self._variants(case)]
+            return [rx.model_extract_op(case['examples'], o, case['form'], case.get('size')) for o in self._variants(case)]
         ops = []
         for o, (res, exc, picks) in zip(self._variants(case), self._recorded(case)):
             if exc is not None or any(not isinstance(x, list) for p in picks for x in p):
